@@ -1335,6 +1335,23 @@ class C12(PropOracle):
 
     prop = "C12"
 
+    def __init__(self):
+        self.unrecorded = {}  # node -> jobs whose process ended and whose append may still be under way
+        self.must_have = set()  # jobs that ended and whose node has since gone on to its next launch / poll / exit
+
+    def digest(self):
+        return repr((sorted((k, sorted(v)) for k, v in self.unrecorded.items() if v), sorted(self.must_have)))
+
+    def on_job_exit(self, w, vp, d):
+        self.unrecorded.setdefault(vp.name, set()).add(d["job"])
+
+    def on_transition(self, w, vp, d):
+        s_ = self.unrecorded.get(vp.name)
+        if s_ and vp.status == "ready" and vp.pending is not None and vp.pending.kind in ("poll", "launch", "exit"):
+            # the node is past the point where it records the results of the jobs that just ended
+            self.must_have |= s_
+            s_.clear()
+
     def on_launch(self, w, vp, d):
         # a job that waits for a job without an outcome is never started
         rec = w.obs.launch_log[-1]
@@ -1401,6 +1418,9 @@ class C12(PropOracle):
                 else:
                     self.v(w, f"job {n} has a row with status {st}", "bad-status")
             else:
+                if n in self.must_have:
+                    self.v(w, f"job {n} finished (exit {o.exits.get(n)}) and its node went on to its next launch/poll, yet no result row of it exists: "
+                              f"a job that did finish lost its result", "finished-job-result-lost")
                 if n in got:
                     self.v(w, f"final results contain {n}: {got[n]} but no row was ever recorded for it", "fabricated-result")
                 if n not in missing:
